@@ -205,7 +205,9 @@ def run(ctx):
                        "interval unset / 2 us / 1 ms, stop() or destructor, stop at once / after the roots' futures) + one seeded task forest (1-6 roots over 1-3 "
                        "external submitters, 0-2 children per task, depth <= 3, execute or submit, 20% of children submitted from inside a foreign InplaceExecutor "
                        "scope, failing submissions through the base Executor, wakeup_one_worker) under one seeded schedule (random with 5 stickiness levels, or PCT); "
-                       "`hold`: one worker, small local queue, global capacity 1, permanently sweeping balance thread; inplace / newthread: nested submissions, join(). "
+                       "`hold`: one worker, small local queue, global capacity 1, permanently sweeping balance thread; `wide`: stealing on, 2-3 workers whose thread-local "
+                       "slots are 126, 127, 128 of 160 (124 parked threads hold the smaller ids), so the stealing scan crosses the 128-entry block boundary of the storage; "
+                       "failing submissions go through the base Executor (-1) and a user-defined executor whose invoke() returns -1, 1, 16, -2, 11, INT_MIN, INT_MAX in turn; inplace / newthread: nested submissions, join(). "
                        "non-trivial = validated and (a local ticket was claimed, or the run stalled by design, or >= 3 tasks ran; simple executors: >= 2 tasks); "
                        "distinct by trace hash")
     ctx.cov["samples"] = samples or [["<no sample>"]]
